@@ -94,34 +94,35 @@ def e2e_rows(job):
     for row in rows:
         cands = row["cands"]
         for code, args in zip(row["row"], argseq):
-            src = ""
-            for i, sig in enumerate(cands):
-                src += f"function g({', '.join(f'{t} p{j}' for j, t in enumerate(sig))}) -> int {{ return {101 + i}; }}\n"
-            src += f"export function f({', '.join(f'{t} a{j}' for j, t in enumerate(args))}) -> int\n{{\n  return g({', '.join(f'a{j}' for j in range(len(args)))});\n}}\n"
-            case = {"overloads": cands, "call_argument_types": args, "prescribed": describe(code, cands), "source": src}
-            for opt in (False, True):
-                c2 = dict(case, optimize=opt)
-                try:
-                    with time_limit(10):
-                        st, r = common.compile_source(src, {"optimize": opt})
-                        if st != "ok":
-                            out.append(judge("e2e", code, "reject:" + r[:50], c2))
-                            continue
-                        vm = common.link_vm(r)
-                        try:
-                            with quiet():
-                                v = vm.Invoke("f", **{f"a{j}": pyval(t) for j, t in enumerate(args)})
-                        except CaseTimeout:
-                            raise
-                        except BaseException as e:  # noqa
-                            out.append(("e2e-vm-error:" + type(e).__name__, f"accepted call fails on the VM with {type(e).__name__}: {str(e)[:60]}", c2))
-                            continue
-                        if isinstance(v, int) and 101 <= v < 101 + len(cands):
-                            out.append(judge("e2e", code, v - 100, c2))
-                        else:
-                            out.append(("e2e-bad-value", f"VM returned {v!r}, not one of the overloads' constants", c2))
-                except CaseTimeout:
-                    out.append(("e2e-timeout", "case did not finish in 10 s", c2))
+            defs = [f"function g({', '.join(f'{t} p{j}' for j, t in enumerate(sig))}) -> int {{ return {101 + i}; }}\n" for i, sig in enumerate(cands)]
+            caller = f"export function f({', '.join(f'{t} a{j}' for j, t in enumerate(args))}) -> int\n{{\n  return g({', '.join(f'a{j}' for j in range(len(args)))});\n}}\n"
+            # the caller stands after, between and before the overloads: resolution does not depend on where a function is declared
+            for pos in range(len(cands), -1, -1):
+              src = "".join(defs[:pos]) + caller + "".join(defs[pos:])
+              case = {"overloads": cands, "call_argument_types": args, "prescribed": describe(code, cands), "source": src, "caller_position": pos}
+              for opt in ((False, True) if pos == len(cands) else (False,)):
+                  c2 = dict(case, optimize=opt)
+                  try:
+                      with time_limit(10):
+                          st, r = common.compile_source(src, {"optimize": opt})
+                          if st != "ok":
+                              out.append(judge("e2e", code, "reject:" + r[:50], c2))
+                              continue
+                          vm = common.link_vm(r)
+                          try:
+                              with quiet():
+                                  v = vm.Invoke("f", **{f"a{j}": pyval(t) for j, t in enumerate(args)})
+                          except CaseTimeout:
+                              raise
+                          except BaseException as e:  # noqa
+                              out.append(("e2e-vm-error:" + type(e).__name__, f"accepted call fails on the VM with {type(e).__name__}: {str(e)[:60]}", c2))
+                              continue
+                          if isinstance(v, int) and 101 <= v < 101 + len(cands):
+                              out.append(judge("e2e", code, v - 100, c2))
+                          else:
+                              out.append(("e2e-bad-value", f"VM returned {v!r}, not one of the overloads' constants", c2))
+                  except CaseTimeout:
+                      out.append(("e2e-timeout", "case did not finish in 10 s", c2))
     return out
 
 
